@@ -99,7 +99,7 @@ fn read_all(input: &[u8], source: u8, first_piece: usize) -> Vec<Ev> {
     }
 }
 
-fn write_run(f: &mut impl Write, ctor: &str, first: &[u8], malformed: bool, evs: &[Ev], orig: Option<&[Ev]>, events: &mut u64) {
+fn write_run(f: &mut impl Write, ctor: &str, first: &[u8], malformed: bool, evs: &[Ev], orig: Option<&[Ev]>, truth: Option<&[String]>, events: &mut u64) {
     writeln!(f, "{}", json!({"t": "EncReset", "ctor": ctor, "first": first, "malformed": if malformed {1} else {0}})).unwrap();
     *events += 1;
     for (i, e) in evs.iter().enumerate() {
@@ -110,12 +110,18 @@ fn write_run(f: &mut impl Write, ctor: &str, first: &[u8], malformed: bool, evs:
             Some(o) => match o.get(i) {
                 // the declaration's own text differs (it names the encoding); every other payload must be equal
                 Some(oe) if e.k == "Decl" => (e.decoded.is_some(), oe.k == "Decl"),
-                Some(oe) => (e.decoded.is_some() && e.decoded == oe.decoded, e.k == oe.k || (malformed && e.k == "Err")),
+                Some(oe) => {
+                    // the decoded payload must be the ORIGINAL string the document was generated from
+                    // (ground truth of the generator, not a second run of the code under test)
+                    let want = truth.and_then(|t| t.get(i)).cloned().or_else(|| oe.decoded.clone());
+                    (e.decoded.is_some() && e.decoded == want, e.k == oe.k || (malformed && e.k == "Err"))
+                }
                 None => (false, malformed),
             },
         };
         writeln!(f, "{}", json!({"t": "EncEv", "k": e.k, "label": e.label, "enc": e.enc,
-            "bom_in_event": if e.bytes.starts_with(&[0xEF, 0xBB, 0xBF]) || e.decoded.as_deref().map(|d| d.starts_with('\u{feff}')).unwrap_or(false) {1} else {0},
+            // the document-leading byte-order mark must not show up in the first event (U+FEFF elsewhere is content)
+            "bom_in_event": if i == 0 && (e.bytes.starts_with(&[0xEF, 0xBB, 0xBF]) || e.decoded.as_deref().map(|d| d.starts_with('\u{feff}')).unwrap_or(false)) {1} else {0},
             "same": if same {1} else {0}, "decode_ok": if e.decoded.is_some() || orig.is_none() {1} else {0}, "kind_same": if kind_same {1} else {0}})).unwrap();
         *events += 1;
     }
@@ -166,7 +172,7 @@ pub fn record(out: &str, seed: u64, n: usize) -> Value {
                 for first_piece in if source == 2 { vec![0usize, 4, 9] } else { vec![0] } {
                     let evs = read_all(&doc, source, first_piece);
                     let seen = if source == 2 && first_piece != 0 { first_piece.min(doc.len()) } else { doc.len() };
-                    write_run(&mut f, if source == 1 { "str" } else { "reader" }, &doc[..seen.min(4)], false, &evs, None, &mut events);
+                    write_run(&mut f, if source == 1 { "str" } else { "reader" }, &doc[..seen.min(4)], false, &evs, None, None, &mut events);
                     traces += 1;
                     if !ds.is_empty() {
                         nontriv += 1;
@@ -193,9 +199,16 @@ pub fn record(out: &str, seed: u64, n: usize) -> Value {
             let with_decl = enc != UTF_8 || rng.gen_bool(0.5);
             let bom = enc == UTF_8 && rng.gen_bool(0.5);
             let name = gen(&mut rng, 1).replace(' ', "n").replace(|c: char| c.is_ascii_digit(), "d");
-            let body = format!("<r{n} k=\"{}\" j='{}'>{}<!--{}--><![CDATA[{}]]><?p {}?><e{n}/>{}</r{n}>",
-                gen(&mut rng, 4), gen(&mut rng, 2), gen(&mut rng, 6), gen(&mut rng, 3), gen(&mut rng, 4), gen(&mut rng, 2), gen(&mut rng, 3), n = name);
+            // payloads; some start with U+FEFF (a character of the content, not a byte-order mark) where encodable
+            let zw = if safe(enc, '\u{feff}') && rng.gen_bool(0.5) { "\u{feff}" } else { "" };
+            let (pa, pb, pt, pc, pd, pe, pf) = (format!("{zw}{}", gen(&mut rng, 4)), gen(&mut rng, 2), format!("{zw}{}", gen(&mut rng, 6)).trim_end().to_string() + "x",
+                gen(&mut rng, 3), format!("{zw}{}", gen(&mut rng, 4)), gen(&mut rng, 2), gen(&mut rng, 3) + "y");
+            let body = format!("<r{n} k=\"{}\" j='{}'>{}<!--{}--><![CDATA[{}]]><?p {}?><e{n}/>{}</r{n}>", pa, pb, pt, pc, pd, pe, pf, n = name);
+            let mut truth: Vec<String> = vec![format!("r{n} k=\"{}\" j='{}'", pa, pb, n = name), pt.clone(), pc.clone(), pd.clone(), format!("p {}", pe), format!("e{n}", n = name), pf.clone(), format!("r{n}", n = name)];
             let decl = if with_decl { format!("<?xml version=\"1.0\" encoding=\"{}\"?>", enc.name()) } else { String::new() };
+            if with_decl {
+                truth.insert(0, String::new()); // the declaration's own text is not compared
+            }
             let doc_utf8 = format!("{}{}", decl, body);
             let (encoded, _, bad) = enc.encode(&doc_utf8);
             if bad {
@@ -225,7 +238,7 @@ pub fn record(out: &str, seed: u64, n: usize) -> Value {
             let first_piece = if source == 2 { [0usize, 4, 5, 40][rng.gen_range(0..4)] } else { 0 };
             let evs = read_all(&bytes, source, first_piece);
             let seen = if source == 2 && first_piece != 0 { first_piece.min(bytes.len()) } else { bytes.len() };
-            write_run(&mut f, "reader", &bytes[..seen.min(4)], malformed, &evs, Some(&orig), &mut events);
+            write_run(&mut f, "reader", &bytes[..seen.min(4)], malformed, &evs, Some(&orig), if malformed { None } else { Some(&truth) }, &mut events);
             traces += 1;
             nontriv += 1;
             if samples.len() < 3 && j == 0 && [WINDOWS_1251, SHIFT_JIS, UTF_8].contains(&enc) {
@@ -234,7 +247,7 @@ pub fn record(out: &str, seed: u64, n: usize) -> Value {
             // Explicit (from_str) is not overridden by a declaration naming another encoding
             if j % 7 == 0 && enc != UTF_8 {
                 let evs = read_all(doc_utf8.as_bytes(), 1, 0);
-                write_run(&mut f, "str", &doc_utf8.as_bytes()[..4.min(doc_utf8.len())], false, &evs, Some(&orig), &mut events);
+                write_run(&mut f, "str", &doc_utf8.as_bytes()[..4.min(doc_utf8.len())], false, &evs, Some(&orig), Some(&truth), &mut events);
                 traces += 1;
             }
         }
